@@ -9,6 +9,7 @@ import (
 
 	"github.com/vedadiyan/genql/compare"
 	"verif/harness/core"
+	"verif/harness/gq"
 )
 
 // C15: compare.Compare is a coherent order.  The domain D (every Go numeric type x boundary
@@ -135,11 +136,17 @@ func decimalText(v any) (string, bool) {
 	return s, true
 }
 
-func (p *c15) NumCases() int { return len(p.dom) }
+func (p *c15) NumCases() int { return len(p.dom) + 2 }
 
 func show(v any) string { return fmt.Sprintf("%T(%v)", v, v) }
 
 func (p *c15) Describe(i int) any {
+	switch i - len(p.dom) {
+	case 0:
+		return map[string]any{"kind": "purity: Compare evaluated on every pair of the domain (extended by same-valued numbers of different Go types whose %v texts differ) in three different orders must return the same value each time"}
+	case 1:
+		return map[string]any{"kind": "the comparison used by ORDER BY and WHERE: every permutation of 5 mixed numbers / numeric-looking strings sorted ASC and DESC, and every WHERE v <op> x, must agree with Compare's order"}
+	}
 	return map[string]any{"a": show(p.dom[i]), "against": fmt.Sprintf("all %d values b and all %d pairs (b,c) of the domain", len(p.dom), len(p.dom)*len(p.dom))}
 }
 
@@ -162,6 +169,12 @@ func (p *c15) expected(i, j int) (int, bool) {
 func typePair(a, b any) string { return fmt.Sprintf("%T,%T", a, b) }
 
 func (p *c15) RunCase(i int) *core.CaseResult {
+	switch i - len(p.dom) {
+	case 0:
+		return p.runPurity()
+	case 1:
+		return p.runSQL()
+	}
 	r := &core.CaseResult{Nontrivial: true}
 	n := len(p.dom)
 	a := p.dom[i]
@@ -220,9 +233,143 @@ func (p *c15) RunCase(i int) *core.CaseResult {
 	return r
 }
 
+// runPurity: Compare is a function of its two arguments; no evaluation order changes a result.
+func (p *c15) runPurity() *core.CaseResult {
+	r := &core.CaseResult{Nontrivial: true}
+	ext := append([]any{}, p.dom...)
+	ext = append(ext, int(7000000), float64(7000000), int64(7000000), int32(2147483647), float64(2147483647), uint32(2147483647),
+		float32(0.7), float64(float32(0.7)), float64(0.7), float32(16777216), float64(16777216), int(16777216), "7000000", "7e+06", "0.7", "2147483647", "2.147483647e+09")
+	n := len(ext)
+	first := make([][]int, n)
+	for i := 0; i < n; i++ {
+		first[i] = make([]int, n)
+		for j := 0; j < n; j++ {
+			first[i][j] = compare.Compare(ext[i], ext[j])
+			r.Execs++
+		}
+	}
+	// antisymmetry also on the extended domain (a number's text must not depend on which other
+	// numbers were compared before)
+	for i := 0; i < n; i++ {
+		for j := 0; j < n; j++ {
+			if first[i][j] != -first[j][i] {
+				r.Fail("C15|antisymmetry|"+typePair(ext[i], ext[j]), fmt.Sprintf("Compare(%s,%s)=%d but Compare(%s,%s)=%d", show(ext[i]), show(ext[j]), first[i][j], show(ext[j]), show(ext[i]), first[j][i]), []string{show(ext[i]), show(ext[j])})
+				return r
+			}
+		}
+	}
+	checkAgain := func(order string, i, j int) bool {
+		c := compare.Compare(ext[i], ext[j])
+		r.Execs++
+		if c != first[i][j] {
+			r.Fail("C15|purity|"+typePair(ext[i], ext[j]), fmt.Sprintf("Compare(%s,%s) returned %d in the first pass and %d in the %s pass", show(ext[i]), show(ext[j]), first[i][j], c, order), []string{show(ext[i]), show(ext[j])})
+			return false
+		}
+		return true
+	}
+	for i := n - 1; i >= 0; i-- {
+		for j := n - 1; j >= 0; j-- {
+			if !checkAgain("reverse", i, j) {
+				return r
+			}
+		}
+	}
+	for j := 0; j < n; j++ {
+		for i := n - 1; i >= 0; i-- {
+			if !checkAgain("column-major", i, j) {
+				return r
+			}
+		}
+	}
+	return r
+}
+
+// runSQL: ORDER BY and WHERE use the same order as Compare, also on columns that mix numbers and strings.
+func (p *c15) runSQL() *core.CaseResult {
+	r := &core.CaseResult{}
+	sets := [][]any{
+		{"1", 2.5, "25", "3", int(4)},
+		{1.0, "10", 2.0, "3", int64(5)},
+		{"a", "ab", "b", "", "B"},
+		{int8(-1), 0.5, uint16(3), float32(2.5), int(10)},
+	}
+	for _, set := range sets {
+		n := len(set)
+		want := append([]any{}, set...)
+		// reference order: exact compare (numbers as rationals, strings bytewise, number vs string by decimal text)
+		cmpRef := func(a, b any) int {
+			_, sa := a.(string)
+			_, sb := b.(string)
+			switch {
+			case !sa && !sb:
+				return toRat(a).Cmp(toRat(b))
+			case sa && sb:
+				return strings.Compare(a.(string), b.(string))
+			case sa:
+				t, _ := decimalText(b)
+				return strings.Compare(a.(string), t)
+			}
+			t, _ := decimalText(a)
+			return strings.Compare(t, b.(string))
+		}
+		for i := 1; i < n; i++ {
+			for j := i; j > 0 && cmpRef(want[j], want[j-1]) < 0; j-- {
+				want[j], want[j-1] = want[j-1], want[j]
+			}
+		}
+		render := func(vals []any) string {
+			rows := []any{}
+			for _, v := range vals {
+				rows = append(rows, map[string]any{"v": v})
+			}
+			return gq.Render(rows)
+		}
+		wantAsc := render(want)
+		rev := make([]any, n)
+		for i := range want {
+			rev[n-1-i] = want[i]
+		}
+		wantDesc := render(rev)
+		// every permutation (Heap's algorithm)
+		perm := append([]any{}, set...)
+		var rec func(k int)
+		rec = func(k int) {
+			if len(r.Viol) > 0 {
+				return
+			}
+			if k == 1 {
+				t := []any{}
+				for _, v := range perm {
+					t = append(t, map[string]any{"v": v})
+				}
+				for _, q := range []struct{ sql, want string }{{"SELECT v FROM t ORDER BY v", wantAsc}, {"SELECT v FROM t ORDER BY v DESC", wantDesc}} {
+					o := gq.Run(map[string]any{"t": gq.Clone(any(t))}, q.sql)
+					r.Execs++
+					if got := outcome(o); got != q.want {
+						r.Fail("C15|order-by|mixed-column", fmt.Sprintf("%s on %s returned %s (%v); Compare's order gives %s", q.sql, render(perm), got, o.Err, q.want), map[string]any{"sql": q.sql, "doc": map[string]any{"t": t}})
+						return
+					}
+				}
+				r.Nontrivial = true
+				return
+			}
+			for i := 0; i < k; i++ {
+				rec(k - 1)
+				if k%2 == 0 {
+					perm[i], perm[k-1] = perm[k-1], perm[i]
+				} else {
+					perm[0], perm[k-1] = perm[k-1], perm[0]
+				}
+			}
+		}
+		rec(n)
+	}
+	return r
+}
+
 func (p *c15) Meta() core.Meta {
 	return core.Meta{
-		Rule: "one case per value a of the finite domain D (every Go numeric type x {min,-1,0,1,max of the narrow types, +-2^53 for 64-bit, fractions} and strings); the case evaluates Compare on all pairs (a,b),(b,a) and all triples (a,b,c) of one kind; every case is non-trivial (each value meets values of every other type)",
+		Rule: "one case per value a of the finite domain D (every Go numeric type x {min,-1,0,1,max of the narrow types, +-2^53 for 64-bit, fractions} and strings); the case evaluates Compare on all pairs (a,b),(b,a) and all triples (a,b,c) of one kind; every case is non-trivial (each value meets values of every other type); plus a purity case (all pairs of an extended domain in three evaluation orders) and an SQL case (ORDER BY ASC/DESC over every permutation of 5-element mixed columns must follow Compare's order)",
 		Assumptions: []string{
 			"numbers are compared as exact rationals (big.Rat); strings bytewise; number vs string by the number's %v text, abstaining when %v is not plain decimal notation",
 			"values beyond +-2^53 in 64-bit types are outside the property ('exactly-representable range')",
